@@ -42,3 +42,11 @@ func VerifPending(p StreamPool) int {
 	count, _ := p.(*streamPool).OutgoingMsg()
 	return int(count)
 }
+
+// VerifWrapCloseHook lets the harness observe the stream-close hook (entry / exit) of a pool.
+func VerifWrapCloseHook(p StreamPool, wrap func(orig func(streamId uint32, peerId string, tags []string)) func(streamId uint32, peerId string, tags []string)) {
+	s := p.(*streamPool)
+	s.mu.Lock()
+	defer s.mu.Unlock()
+	s.closeHook = wrap(s.closeHook)
+}
